@@ -94,8 +94,14 @@ func posKeys(lines []string) [][2]int {
 			break
 		}
 	}
+	// lines that begin inside a raw string literal are text, not declarations (the printer does
+	// not re-indent them either)
+	inRaw := make([]bool, len(lines)+1)
+	for i, l := range lines {
+		inRaw[i+1] = inRaw[i] != (strings.Count(l, "`")%2 == 1)
+	}
 	for i := len(lines) - 1; i >= 0; i-- {
-		if strings.HasPrefix(lines[i], base+"func ") {
+		if !inRaw[i] && strings.HasPrefix(lines[i], base+"func ") {
 			out[i] = [2]int{funcs, dist + 1}
 			funcs++
 			dist = 0
